@@ -194,6 +194,22 @@ func init() {
 			"virtual-memory stack) run under 7 observer configurations (bare standalone registrar with no hook anywhere, default simulation with tracing off, engine hook, ID-eating hook, four aggregate tracers on every " +
 			"component, DB tracer + port buffer tracing, all) and their fingerprints (responses with data and times in order, end time, " +
 			"final backing-memory image at every touched line) compared. Non-trivial: script with >= 3 events and an observer consuming >= 1 ID per event; every library case.",
-		Gen: gen, Run: run,
+		Gen: gen, Run: run, Shrink: shrink,
 	})
+}
+
+func shrink(raw json.RawMessage) []json.RawMessage {
+	var k kindOnly
+	if hx.UJ(raw, &k) != nil || k.Kind != "lib" {
+		return nil
+	}
+	var in libIn
+	if hx.UJ(raw, &in) != nil {
+		return nil
+	}
+	var out []json.RawMessage
+	for _, c := range asm.ShrinkConfigs(in.Cfg) {
+		out = append(out, hx.J(libIn{Kind: "lib", Cfg: c}))
+	}
+	return out
 }
